@@ -51,6 +51,15 @@ def quiet():
 # implementation import (always from /repo's working tree)
 # ------------------------------------------------------------------------------------------------
 
+def anchor_files(pid):
+    """files the property is anchored in (properties.jsonl -> anchors.files)"""
+    for line in open(os.path.join(VERIF, "properties.jsonl")):
+        o = json.loads(line)
+        if o.get("id") == pid:
+            return list((o.get("anchors") or {}).get("files", []))
+    return []
+
+
 def import_repo():
     p = os.path.join(REPO, "src")
     if p not in sys.path:
@@ -251,7 +260,13 @@ class Ctx:
         self.quick = tier == "quick"
 
     def scale(self, quick, thorough):
-        return quick if self.quick else thorough
+        """sample size of a stream: the quick or the thorough figure; when the source the property is anchored in differs from the
+        source the hand models were written against (tools/fingerprint.py) a quick run samples 8x (at most the thorough figure)"""
+        if not self.quick:
+            return thorough
+        if getattr(self, "source_changed", None):
+            return min(thorough, quick * 8) if thorough >= quick else quick
+        return quick
 
     # --- recording -------------------------------------------------------------------------
     def violation(self, what, replay, sig):
